@@ -62,6 +62,20 @@ USER_SOURCES = {
     'user-shadows-builtin': (['class ValueError(Exception):', '    pass'], "raise ValueError('shadow')", 'ValueError'),
     'user-empty-message': (['class E8(Exception):', '    pass'], 'raise E8()', 'E8'),
     'user-nonstring-arg': (['class E9(Exception):', '    pass'], 'raise E9({"a": [1, 2]}, 3)', 'E9'),
+    'user-str-raises-own-class': (['class E10(Exception):', '    def __str__(self):', "        raise E10('again')"], "raise E10('x')", 'E10'),
+    'user-setattr-raises': (['class E11(Exception):', '    def __setattr__(self, key, value):', "        raise AttributeError('this exception is frozen')"],
+                            "raise E11('frozen')", 'E11'),
+    'user-getattr-raises': (['class E12(Exception):', '    def __getattr__(self, key):', "        raise RuntimeError('no attribute access: ' + key)"],
+                            "raise E12('hostile')", 'E12'),
+    'user-eq-bool-raise': (['class E13(Exception):', '    def __eq__(self, other):', "        raise RuntimeError('no eq')", '    def __bool__(self):',
+                            "        raise RuntimeError('no bool')", '    __hash__ = None'], "raise E13('strict')", 'E13'),
+    'user-feedback-property': (['class E14(Exception):', '    @property', '    def feedback(self):', "        return 'mine'"], "raise E14('has feedback')", 'E14'),
+    'user-empty-name': (["E15 = type('', (Exception,), {})"], "raise E15('anonymous')", ''),
+    'user-args-replaced': (['class E16(Exception):', '    def __init__(self, *a):', '        super().__init__(*a)', '        self.args = None if False else (object(),)'],
+                           "raise E16('odd args')", 'E16'),
+    'literal-eval-syntaxerror': (['import ast'], "ast.literal_eval('[1, 2\\n 3]')", 'SyntaxError'),
+    'compile-in-string-syntaxerror': (['import ast'], "ast.parse('def (:')", 'SyntaxError'),
+    'int-too-long': ([], "int('9' * 5000)", 'ValueError'),
     'chained-from': ([], "raise ValueError('outer') from KeyError('inner')", 'ValueError'),
     'chained-from-none': ([], "raise TypeError('no context') from None", 'TypeError'),
     'implicit': ([], "x = [1, 2, 3][10]", 'IndexError'),
@@ -169,11 +183,22 @@ def reset_process_state():
         sys.stdout = sys.__stdout__
 
 
+def safe_text(value):
+    try:
+        return str(value)[:200]
+    except BaseException:
+        return '<unprintable %s>' % type(value).__name__
+
+
+def is_sandbox_result(value):
+    """Harness-side test that never touches the (possibly hostile) wrapped object's attributes."""
+    return type(value).__name__ == 'SandboxResult' and type(value).__module__ == 'pedal.sandbox.result'
+
+
 def judge(case):
     from pedal.core.report import MAIN_REPORT
     from pedal.core.submission import Submission
     from pedal.sandbox.commands import get_sandbox
-    from pedal.sandbox.result import is_sandbox_result
     reset_process_state()
     sid, position, entry = case['source'], case.get('position', 'top'), case['entry']
     if sid in ('StopIteration', 'StopAsyncIteration') and position == 'generator':
@@ -213,7 +238,7 @@ def judge(case):
             sb.run()
             if sb.exception is not None:
                 MAIN_REPORT.full_clear()
-                return Result([V('C04|harness|definitions-failed', 'defining the functions failed: %r' % sb.exception)], True, classes)
+                return Result([V('C04|harness|definitions-failed', 'defining the functions failed: %s' % safe_text(sb.exception))], True, classes)
             before = len(runtime_count())
             if entry == 'call':
                 sb.call('target')
@@ -225,10 +250,10 @@ def judge(case):
         MAIN_REPORT.full_clear()
         reset_process_state()
         return Result([V('%s|escapes:%s' % (cellbase, type(e).__name__), '%s(%s at %s, threaded=%s, tracer=%s): %s escaped into the grader: %s (%s:%s)'
-                         % (entry, sid, position, threaded, tracer, type(e).__name__, e, tb.filename, tb.lineno))], True, classes + ['escaped'])
+                         % (entry, sid, position, threaded, tracer, type(e).__name__, safe_text(e), tb.filename, tb.lineno))], True, classes + ['escaped'])
     exc = sb.exception
     if is_sandbox_result(exc):
-        exc = exc._actual_value
+        exc = object.__getattribute__(exc, 'value')
     after = runtime_count()
     desc = '%s(%s at %s, threaded=%s, tracer=%s)' % (entry, sid, position, threaded, tracer)
     if exc is None:
@@ -239,7 +264,7 @@ def judge(case):
             if not isinstance(exc, SyntaxError):
                 viol.append(V(cellbase + '|exception-class', '%s: expected a SyntaxError, sandbox exception is %s' % (desc, got)))
         elif expected is not None and got != expected:
-            viol.append(V(cellbase + '|exception-class', '%s: injected %s but the sandbox exception is %s: %s' % (desc, expected, got, str(exc)[:100] if sid != 'user-str-raises' else '')))
+            viol.append(V(cellbase + '|exception-class', '%s: injected %s but the sandbox exception is %s: %s' % (desc, expected, got, safe_text(exc))))
     new = len(after) - before
     if new != 1:
         viol.append(V(cellbase + '|runtime-feedback-count', '%s: %d runtime feedbacks attached for one failure' % (desc, new)))
